@@ -54,6 +54,57 @@ bool ops_c15(Ctx &c, Toks const &t)
     cvm::clear_error();
     return true;
   }
+  if (t[0] == "g.rtx") {        // g.rtx restart|restartbin P cvw w loW hiW loR hiR
+    cvm::clear_error();
+    std::string const kind = t[1];
+    double const P = f_of(t[2]), cvw = f_of(t[3]), w = f_of(t[4]), loW = f_of(t[5]), hiW = f_of(t[6]), loR = f_of(t[7]), hiR = f_of(t[8]);
+    static long nrx = 0;
+    std::string const nw = "rxw" + std::to_string(nrx), nr = "rxr" + std::to_string(nrx); nrx++;
+    auto mk = [&](std::string const &name, double lo, double hi) {
+      return "colvar {\n name " + name + "\n lowerBoundary " + num17(lo) + "\n upperBoundary " + num17(hi) + "\n width " + num17(cvw) +
+        "\n distanceZ {\n main { atomNumbers 1 }\n ref { dummyAtom (0.0, 0.0, 0.0) }\n axis (0.0, 0.0, 1.0)\n period " + num17(P) + "\n }\n}\n";
+    };
+    c.proxy->colvars->read_config_string(mk(nw, loW, hiW) + mk(nr, loR, hiR));
+    cvm::clear_error();
+    colvar *cw = cvm::colvar_by_name(nw), *cr = cvm::colvar_by_name(nr);
+    if (!cw || !cr) { c.out("ok", "snocv"); return true; }
+    bool ok = true;
+    {
+      std::vector<colvar *> vw(1, cw), vr(1, cr);
+      colvar_grid_scalar A(vw), B(vr);
+      // the grids' own width is that of the variable; a different bin width comes from a parameter block
+      if (w != cvw) {
+        A.parse_params("width " + num17(w) + "\n", colvarparse::parse_silent);
+        B.parse_params("width " + num17(w) + "\n", colvarparse::parse_silent);
+      }
+      for (size_t i = 0; i < A.data.size(); i++) A.data[i] = (double) (i + 1);
+      A.has_data = true;
+      if (kind == "restart") {
+        std::ostringstream os; os.precision(17); A.write_restart(os);
+        std::istringstream is(os.str()); ok = (bool) B.read_restart(is);
+      } else {
+        cvm::memory_stream os; A.write_restart(os);
+        cvm::memory_stream is(os.length(), os.output_buffer()); ok = (bool) B.read_restart(is);
+      }
+      c.out("ok", itok(ok && cvm::get_error() == COLVARS_OK ? 1 : 0));
+      cvm::clear_error();
+      std::vector<std::string> o;
+      for (size_t i = 0; i < B.nx.size(); i++) o.push_back(itok(B.nx[i]));
+      c.out("nx", join(o));
+      o.clear(); for (size_t i = 0; i < B.lower_boundaries.size(); i++) o.push_back(ftok(B.lower_boundaries[i].real_value));
+      c.out("lo", join(o));
+      o.clear(); for (size_t i = 0; i < B.widths.size(); i++) o.push_back(ftok(B.widths[i]));
+      c.out("w", join(o));
+      o.clear(); for (size_t i = 0; i < A.periodic.size(); i++) o.push_back(itok(A.periodic[i] ? 1 : 0));
+      c.out("perw", join(o));
+      o.clear(); for (size_t i = 0; i < B.periodic.size(); i++) o.push_back(itok(B.periodic[i] ? 1 : 0));
+      c.out("per", join(o));
+      o.clear(); for (size_t i = 0; i < B.data.size(); i++) o.push_back(ftok(B.data[i]));
+      c.out("data", join(o));
+    }
+    delete cw; delete cr;
+    return true;
+  }
   if (!G) return true;
   int nd = (int) G->nd;
   if (t[0] == "g.bin") { c.out("bin", itok(G->value_to_bin_scalar(colvarvalue(f_of(t[2])), (int) i_of(t[1])))); return true; }
